@@ -271,10 +271,35 @@ pub enum ClientKind {
     Str,
     Raw,
     Boxes,
+    /// `allocator_api2::vec::Vec<u32, &Bump>`: a standard collection parameterised by the arena (C12)
+    AVec,
+}
+
+/// ops of the allocator_api2 Vec client
+#[derive(Clone, Debug, PartialEq, Serialize, Deserialize)]
+pub enum AOp {
+    Push(u32),
+    Pop,
+    Insert(Pos, u32),
+    Remove(Pos),
+    Extend(usize, u32),
+    Truncate(Pos),
+    Reserve(usize),
+    ReserveExact(usize),
+    ShrinkToFit,
+    ShrinkTo(usize),
+    Clear,
+    Resize(Pos, u32),
+    Dedup,
+    SplitOff(Pos),
+    IntoBoxedSliceAndBack,
+    CloneCmp,
+    Recreate(usize),
 }
 
 #[derive(Clone, Debug, PartialEq, Serialize, Deserialize)]
 pub enum COp {
+    A(AOp),
     V(VOp),
     S(SOp),
     R(ROp),
